@@ -290,6 +290,43 @@ def execute(plan):
     if S.switches >= 2:
         keys.add("sched:" + hashlib.sha256(bytes(bytearray(t % 256 for t in S.trace))).hexdigest()[:16])
 
+    # ---- concurrent with a casualty: one activation is killed at a seeded event (or fails with an
+    # exception of the user code) while the others keep running; the survivors must be untouched
+    if len(prepared) >= 2:
+        victim = int(rng.integers(0, len(prepared)))
+        ne_v = solo[victim].n_events
+        if ne_v >= 1:
+            e_v = int(rng.integers(1, ne_v + 1))
+            how = "crash" if rng.random() < 0.5 else "raise"
+            S2 = Sched(len(prepared), seed=plan["sched_seed"] + 1, mode=plan["sched_mode"], picks=plan.get("picks"))
+            conc2 = []
+            for i in range(len(prepared)):
+                flt = []
+                if i == victim:
+                    if how == "crash":
+                        flt = [{"kind": "crash", "at": e_v}]
+                    else:
+                        nf = int(solo[victim].counts["fun"])
+                        flt = [{"kind": "raise", "actor": "fun", "at": int(rng.integers(1, nf + 1)), "exc": "InjectedError"}] if nf else []
+                conc2.append(mk(i, sched=S2, tid=i, faults=flt))
+            S2.run([a.run for a in conc2])
+            stats["activations"] += len(conc2)
+            stats["fault.crash_while_interleaved"] += conc2[victim].fired["crash"] + conc2[victim].fired["raise"]
+            for i, a in enumerate(conc2):
+                if i == victim:
+                    continue
+                if _dg(a) != ref[i]:
+                    add(
+                        "casualty_changed_survivor",
+                        {"survivor": i, "victim": victim, "how": how, "switches": S2.switches},
+                    )
+            # and the victim's own repeat afterwards is clean
+            again_v = mk(victim).run()
+            stats["activations"] += 1
+            if _dg(again_v) != ref[victim]:
+                add("history_changed_result", {"sequence": "victim killed while interleaved, then repeated"})
+            keys.add("casualty|%s|%s|%s" % (how, bool(conc2[victim].fired["crash_in_ls"] or conc2[victim].fired["raise_in_ls"]), prepared[victim][1]["jac"]))
+
     # ---- nesting: act 1 runs to completion inside an objective call of act 0
     nfun = int(solo[0].counts["fun"])
     if nfun >= 1:
